@@ -4,7 +4,12 @@
 (*                                                                           *)
 (*  Letters     the message alphabet (method x per-request meta class x      *)
 (*              initialize-params class x spelling of the _meta keys on the  *)
-(*              wire)                                                        *)
+(*              wire x presentation of the metadata: which members of the    *)
+(*              params object are named `_meta` exactly / up to letter case, *)
+(*              how often, and likewise for the entries inside)              *)
+(*  Carried     which per-request metadata a message CARRIES, computed from  *)
+(*              what is written (Members): everything below looks at         *)
+(*              Mt(l) = Carried(l), never at the written classes             *)
 (*  Step        the code-shaped transition: ServerSession.handle             *)
 (*              (mcp/server.go), validateRequestMeta (mcp/shared.go),        *)
 (*              handleReceive/checkRequest, ServerSession.initialize /       *)
@@ -77,26 +82,115 @@ GoodInit(ip) == ip \notin {"missing", "null"}
 \* spelling.  Step, PStep and the clauses therefore never look at l.sp - "carrying the 2026-07-28
 \* per-request metadata" is a statement about the JSON value, not about its bytes - and every spelling
 \* of a class must be answered like the plain one.  Only meaningful when there is a _meta (mt # "none").
+\* (Letter CASE is not a spelling: a name in another case is another name - see l.mk below.)
 Spellings == {"plain", "esc", "uni"}
 
-L(m, mt, ip, sp) == [m |-> m, mt |-> mt, ip |-> ip, sp |-> sp]
+\* ---- presentation of the metadata in the params object (l.mk)
+\* The per-request metadata of a request is the value of the member of `params` whose name is `_meta`,
+\* read the way every other member of the request is read:
+\*   * member names are matched EXACTLY; a member whose name differs from `_meta` in letter case
+\*     (`_Meta`, `_META`, ...) is an unknown member of params and is ignored, whatever it contains and
+\*     wherever it stands;
+\*   * when a name occurs more than once the occurrences are read in order and the LAST one decides
+\*     (a last occurrence with the value null leaves the request without metadata);
+\*   * the same two rules hold for the entries inside the `_meta` object (the three
+\*     io.modelcontextprotocol/... keys).
+\* l.mt is the class of the metadata object that is WRITTEN most prominently; l.mk says where and how
+\* often it is written; Members(l) spells this out and Carried(l) is the class the request carries:
+\*   exact    one member `_meta` of class mt                                  (the ordinary request)
+\*   case     no `_meta`; one case variant of it holds an object of class mt        -> carries nothing
+\*   both     `_meta` of class mt, and next to it (before or after) a case variant holding an object of
+\*            the opposite kind (complete and supported where mt is not, unsupported where mt is good),
+\*            i.e. supplying the missing / overriding entries                        -> carries mt
+\*   dup      `_meta` twice or three times: first object(s) of the opposite kind (or null), the last of
+\*            class mt                                                               -> carries mt
+\*   dupnull  `_meta` twice: an object of class mt, then null                       -> carries nothing
+\*   icase    one `_meta` whose entries all stand under case variants of the three keys: the object has
+\*            none of the three entries                                             -> carries nothing
+\*   iboth    one `_meta` of class mt with, next to its entries, case variants of the keys holding the
+\*            opposite kind of values                                               -> carries mt
+\*   idup     one `_meta` with its keys twice (the version always): the opposite kind of value first,
+\*            mt's value last                                                        -> carries mt
+\* (dup / idup: the earlier occurrences repeat only keys that the last occurrence writes again - a missing
+\* entry of the last one is written as an explicit null - so that "the last object decides" and "the last
+\* entry of every key decides" are the same reading; the property does not choose between the two.)
+Forms == {"exact", "case", "both", "dup", "dupnull", "icase", "iboth", "idup"}
+Opposite(mt) == IF mt \in {"ok", "noinfo"} THEN "newer" ELSE "ok"
+
+\* class of ONE written metadata object, from how its entries are written
+ObjClass(mt, mk) ==
+  CASE mk = "icase" -> "empty"      \* no entry under an exact key
+    [] mk = "iboth" -> mt           \* exact entries decide; the variants are other keys
+    [] mk = "idup"  -> mt           \* the last entry of every key decides
+    [] OTHER        -> mt
+\* the members of params named `_meta` up to letter case, in wire order: <<"exact" | "variant", class of the value>>
+Members(l) ==
+  CASE l.mt = "none"     -> <<>>
+    [] l.mk = "case"     -> << <<"variant", l.mt>> >>
+    [] l.mk = "both"     -> << <<"exact", l.mt>>, <<"variant", Opposite(l.mt)>> >>
+    [] l.mk = "dup"      -> << <<"exact", Opposite(l.mt)>>, <<"exact", l.mt>> >>
+    [] l.mk = "dupnull"  -> << <<"exact", l.mt>>, <<"exact", "null">> >>
+    [] OTHER             -> << <<"exact", ObjClass(l.mt, l.mk)>> >>
+ExactMembers(l) == SelectSeq(Members(l), LAMBDA e : e[1] = "exact")
+\* THE reading: only exact members count, the last one decides, null / an object without the entries = nothing
+Carried(l) ==
+  LET ex == ExactMembers(l) IN
+  IF ex = <<>> THEN "none"
+  ELSE LET c == ex[Len(ex)][2] IN IF c \in {"null", "empty"} THEN "none" ELSE c
+Mt(l) == Carried(l)
+
+\* Two WRONG readings, used only to show that no presentation is redundant (ASSUME below): matching names
+\* without regard to letter case and merging what matches (encoding/json's way), and letting the first
+\* occurrence decide.
+ReadIgnoringCase(l) ==
+  CASE l.mt = "none" -> "none"
+    [] l.mk \in {"case", "icase"} -> l.mt
+    [] l.mk \in {"both", "iboth"} -> Opposite(l.mt)
+    [] OTHER -> Carried(l)
+ReadFirstWins(l) ==
+  CASE l.mt = "none" -> "none"
+    [] l.mk \in {"dup", "idup"} -> Opposite(l.mt)
+    [] l.mk = "dupnull" -> l.mt
+    [] OTHER -> Carried(l)
+Verdict3(mt) == <<IsModernVer(mt), MetaComplete(mt), MetaSupported(mt)>>
+
+\* which (class, presentation) pairs are in the alphabet besides the ordinary one
+BothClasses == {"legacy", "ok", "nocaps", "badcaps", "newer", "newer_nocaps"}
+FormCombos ==
+  ({"ok", "newer"} \X {"case"}) \cup ({"ok"} \X {"icase", "dupnull"}) \cup
+  (BothClasses \X {"both", "dup"}) \cup
+  ({"nocaps", "newer"} \X {"iboth"}) \cup ({"ok", "nocaps", "newer"} \X {"idup"})
+
+L(m, mt, ip, sp, mk) == [m |-> m, mt |-> mt, ip |-> ip, sp |-> sp, mk |-> mk]
 Letters ==
-  {L(MInit, "none", p, "plain") : p \in InitParamClasses} \cup
-  {L(MInit, t, "legacy", s) : t \in MetaClasses \ {"none"}, s \in Spellings} \cup
-  {L(m, "none", "na", "plain") : m \in Methods \ {MInit}} \cup
-  {L(m, t, "na", s) : m \in Methods \ {MInit}, t \in MetaClasses \ {"none"}, s \in Spellings}
+  {L(MInit, "none", p, "plain", "exact") : p \in InitParamClasses} \cup
+  {L(MInit, t, "legacy", s, "exact") : t \in MetaClasses \ {"none"}, s \in Spellings} \cup
+  {L(m, "none", "na", "plain", "exact") : m \in Methods \ {MInit}} \cup
+  {L(m, t, "na", s, "exact") : m \in Methods \ {MInit}, t \in MetaClasses \ {"none"}, s \in Spellings} \cup
+  {L(MInit, c[1], "legacy", "plain", c[2]) : c \in FormCombos} \cup
+  {L(m, c[1], "na", "plain", c[2]) : m \in Methods \ {MInit}, c \in FormCombos}
+
+\* every presentation other than the ordinary one is read differently - with a different verdict-relevant
+\* outcome - by at least one of the two wrong readings
+ASSUME \A l \in Letters : l.mk # "exact" =>
+          \/ Verdict3(ReadIgnoringCase(l)) # Verdict3(Carried(l))
+          \/ Verdict3(ReadFirstWins(l)) # Verdict3(Carried(l))
+ASSUME \A l \in Letters : l.mk = "exact" => Carried(l) = l.mt
 
 \* the letters whose sequences are enumerated completely
 CoreLetters ==
-  { L(MInit, "none", "legacy", "plain"), L(MInit, "none", "missing", "plain"), L(MInit, "none", "unk_new", "plain"),
-    L(MInited, "none", "na", "plain"), L(MPing, "none", "na", "plain"), L(MCancel, "none", "na", "plain"),
-    L("tools/list", "none", "na", "plain"), L("tools/call", "none", "na", "plain"),
-    L(MSub, "none", "na", "plain"), L(MSetLevel, "none", "na", "plain"), L(MRoots, "none", "na", "plain"),
-    L(MProgress, "none", "na", "plain"),
-    L("tools/list", "ok", "na", "plain"), L("tools/list", "nocaps", "na", "plain"), L("tools/list", "newer", "na", "plain"),
-    L(MDiscover, "ok", "na", "plain"), L(MDiscover, "none", "na", "plain"), L(MPing, "ok", "na", "plain"),
+  { L(MInit, "none", "legacy", "plain", "exact"), L(MInit, "none", "missing", "plain", "exact"), L(MInit, "none", "unk_new", "plain", "exact"),
+    L(MInited, "none", "na", "plain", "exact"), L(MPing, "none", "na", "plain", "exact"), L(MCancel, "none", "na", "plain", "exact"),
+    L("tools/list", "none", "na", "plain", "exact"), L("tools/call", "none", "na", "plain", "exact"),
+    L(MSub, "none", "na", "plain", "exact"), L(MSetLevel, "none", "na", "plain", "exact"), L(MRoots, "none", "na", "plain", "exact"),
+    L(MProgress, "none", "na", "plain", "exact"),
+    L("tools/list", "ok", "na", "plain", "exact"), L("tools/list", "nocaps", "na", "plain", "exact"), L("tools/list", "newer", "na", "plain", "exact"),
+    L(MDiscover, "ok", "na", "plain", "exact"), L(MDiscover, "none", "na", "plain", "exact"), L(MPing, "ok", "na", "plain", "exact"),
     \* the same JSON in another spelling: an invalid request that must not reach the tool handler, a removed method
-    L("tools/call", "newer", "na", "esc"), L(MPing, "ok", "na", "uni") }
+    L("tools/call", "newer", "na", "esc", "exact"), L(MPing, "ok", "na", "uni", "exact"),
+    \* what only LOOKS like per-request metadata: a case variant of `_meta` alone (a legacy request), and next to an
+    \* incomplete `_meta` whose missing entry it supplies (an invalid request)
+    L("tools/call", "ok", "na", "plain", "case"), L("tools/list", "nocaps", "na", "plain", "both") }
 
 \* ------------------------------------------------------- observations
 \* reply: "result" | "error" | "none"; code: JSON-RPC error code (0 when there is none or the
@@ -152,14 +246,16 @@ Receive(st, l, n) ==
     Serve(l, {"mw"}, [st EXCEPT !.ip = "modern", !.at = n])                         \* Server.discover overwrites
   ELSE Serve(l, {"mw"} \cup FeatureHandler(l.m), st)
 
-\* ServerSession.handle for the n-th message of the session
+\* ServerSession.handle for the n-th message of the session.  validateRequestMeta reads params._meta through
+\* extractRequestMeta, which uses the SDK's request decoder (exact member names, later occurrences over
+\* earlier ones): what it sees is Carried(l).
 Step(st, l, n) ==
-  LET new == IsModernVer(l.mt) IN
+  LET new == IsModernVer(Mt(l)) IN
   \* validateRequestMeta: clientInfo if present, then clientCapabilities
-  IF new /\ l.mt = "badinfo" THEN Reject(l, CInvalidParams, 0, {}, st)
-  ELSE IF new /\ l.mt \in {"nocaps", "badcaps", "newer_nocaps"} THEN Reject(l, CInvalidParams, 0, {}, st)
+  IF new /\ Mt(l) = "badinfo" THEN Reject(l, CInvalidParams, 0, {}, st)
+  ELSE IF new /\ Mt(l) \in {"nocaps", "badcaps", "newer_nocaps"} THEN Reject(l, CInvalidParams, 0, {}, st)
   \* supported-version check
-  ELSE IF new /\ ~MetaSupported(l.mt) THEN Reject(l, CUnsupportedVer, NSupported, {}, st)
+  ELSE IF new /\ ~MetaSupported(Mt(l)) THEN Reject(l, CUnsupportedVer, NSupported, {}, st)
   \* method switch
   ELSE IF l.m \in Removed THEN
     (IF new THEN Reject(l, CMethodNotFound, 0, {}, st)
@@ -183,13 +279,13 @@ Mu0 == [acc |-> FALSE, inited |-> FALSE, modern |-> FALSE, ipv |-> "nil", tag |-
 
 Served(o) == o.reply = "result" \/ o.h # {}
 HandlerServed(o) == o.reply = "result" \/ (o.h \ {"mw"}) # {}
-LegacyMsg(l) == ~IsModernVer(l.mt)
+LegacyMsg(l) == ~IsModernVer(Mt(l))
 \* ms: the endpoint serves protocol 2026-07-28 at all (FALSE on a stateful streamable HTTP endpoint, whose
 \* transport refuses it): "names a supported version" is relative to the endpoint.  server/discover is the
 \* negotiation request itself: such an endpoint answers it with its own (legacy-only) version list instead
 \* of -32022, so for discover only the SDK-level support of the named version counts.
-VerSupported(l, ms) == MetaSupported(l.mt) /\ (ms \/ l.m = MDiscover)
-ModernGood(l, ms) == IsModernVer(l.mt) /\ MetaComplete(l.mt) /\ VerSupported(l, ms)
+VerSupported(l, ms) == MetaSupported(Mt(l)) /\ (ms \/ l.m = MDiscover)
+ModernGood(l, ms) == IsModernVer(Mt(l)) /\ MetaComplete(Mt(l)) /\ VerSupported(l, ms)
 
 PStep(mu, l, o, ms) ==
   [acc    |-> mu.acc \/ (l.m = MInit /\ LegacyMsg(l) /\ o.reply = "result"),
@@ -229,12 +325,12 @@ PingAlways(mu, l, o) == (LegacySession(mu) /\ l.m = MPing /\ LegacyMsg(l)) => o.
 \* Requests carrying 2026-07-28 metadata are served (without a handshake) only if the metadata is
 \* complete and names a supported version; otherwise -32602, or -32022 listing the supported versions.
 ModernServedIffMetaComplete(mu, l, o, ms) ==
-  (IsModernVer(l.mt) /\ ~ModernGood(l, ms)) =>
+  (IsModernVer(Mt(l)) /\ ~ModernGood(l, ms)) =>
      /\ ~Served(o)
      /\ StateUnchanged(mu, o)
      /\ (~IsNotif(l.m) =>
            /\ o.reply = "error"
-           /\ \/ (o.code = CInvalidParams /\ ~MetaComplete(l.mt))
+           /\ \/ (o.code = CInvalidParams /\ ~MetaComplete(Mt(l)))
               \/ (o.code = CUnsupportedVer /\ o.nlist > 0 /\ ~VerSupported(l, ms)))
 \* Methods removed from 2026-07-28 are answered method-not-found.
 RemovedMethodsNotFound(mu, l, o, ms) ==
@@ -265,7 +361,7 @@ Premise(c, mu, l, ms) ==
     [] c = "RepeatedInitializedRejected" -> mu.acc /\ mu.inited /\ l.m = MInited /\ LegacyMsg(l)
     [] c = "FirstInitializedTakesEffect" -> LegacySession(mu) /\ mu.acc /\ ~mu.inited /\ l.m = MInited /\ LegacyMsg(l)
     [] c = "PingAlways" -> LegacySession(mu) /\ l.m = MPing /\ LegacyMsg(l)
-    [] c = "ModernServedIffMetaComplete" -> IsModernVer(l.mt) /\ ~ModernGood(l, ms)
+    [] c = "ModernServedIffMetaComplete" -> IsModernVer(Mt(l)) /\ ~ModernGood(l, ms)
     [] c = "RemovedMethodsNotFound" -> ModernGood(l, ms) /\ l.m \in Removed
 
 \* Outside the first sentence of C06 (not judged, only counted): a session that has served a 2026-07-28
